@@ -1,13 +1,17 @@
 #!/bin/sh
-# Measure every check against all first-order mutants of its anchored files (sampled to $1 mutants where given).
+# Measure every check against the first-order mutants of its anchored files: all of them for the per-detector
+# properties, a random sample of $1 (default 400, fixed seed) for the cross-cutting ones whose anchors span the package.
 # Results: /verif/automut/<ID>.txt (survivors and no-verdict mutants) and /verif/automut/SUMMARY.txt.  Not a registered check.
 cd "$(dirname "$0")/.."
-lim="$1"
+lim="${1:-400}"
 : > automut/SUMMARY.txt
-for p in C01 C02 C03 C04 C05 C06 C07 C08 C09 C10 C11 C12 C13 C14 C15 C16 C17 C18 C19 C20; do
-  if [ -n "$lim" ]; then SA_OUT=/tmp/saout_automut /venv/bin/python -m sa.automut $p --limit "$lim" --show > automut/$p.txt 2>&1
-  else SA_OUT=/tmp/saout_automut /venv/bin/python -m sa.automut $p --show > automut/$p.txt 2>&1; fi
+for p in C03 C04 C05 C06 C07 C08 C09 C10 C11 C12 C13 C19 C20; do
+  SA_OUT=/tmp/saout_automut /venv/bin/python -m sa.automut $p --show > automut/$p.txt 2>&1
   grep "^$p " automut/$p.txt | head -1 >> automut/SUMMARY.txt
+done
+for p in C01 C02 C14 C15 C16 C17 C18; do
+  SA_OUT=/tmp/saout_automut /venv/bin/python -m sa.automut $p --limit "$lim" --show > automut/$p.txt 2>&1
+  echo "$(grep "^$p " automut/$p.txt | head -1) (sample of $lim)" >> automut/SUMMARY.txt
 done
 rm -rf /tmp/saout_automut
 cat automut/SUMMARY.txt
